@@ -712,3 +712,17 @@ ASSUMPTIONS = ['64-bit target: u64 -> usize conversion of a length prefix cannot
                'exercised with length prefixes <= 4096: the Rust loop runs `len` times regardless of the input (see NOTES, DEFECT-1)',
                'serialized_size sums are far below usize::MAX (no overflow modelled)']
 HYPOTHESES = []
+
+
+# T-ser translator (lib/expand_serde.py + lib/xlate_serde.py): the code the CanonicalSerialize / CanonicalDeserialize derive
+# macros GENERATE for ten sample structs (expanded with rustc -Zunpretty=expanded, cached on a hash of serialize-derive and
+# serialize sources) is translated to terms over the C18 codec model; Props/GenSer.v (generated = TStruct model, composed
+# with the C18 theorems) is a strict obligation
+STRICT_PROP_FILES = ['GenSer']
+
+
+def pre(ctx):
+    import importlib.util, os
+    sp = importlib.util.spec_from_file_location('genser_pre', os.path.join(ctx['ROOT'], 'props', 'GenSer', 'pre.py'))
+    m = importlib.util.module_from_spec(sp); sp.loader.exec_module(m)
+    m.regen(ctx)
